@@ -30,6 +30,14 @@ Global Instance shard_def_eq_dec : EqDecision shard_def.
 Proof. solve_decision. Defined.
 Global Instance lrep_eq_dec : EqDecision lrep.
 Proof. solve_decision. Defined.
+Global Instance kvrec_eq_dec : EqDecision kvrec.
+Proof. solve_decision. Defined.
+Global Instance db_eq_dec : EqDecision db.
+Proof. solve_decision. Defined.
+Global Instance fhost_eq_dec : EqDecision fhost.
+Proof. solve_decision. Defined.
+Global Instance fstate_eq_dec : EqDecision fstate.
+Proof. solve_decision. Defined.
 
 (* constructors used by the generated files (same conventions as SchedRun.v) *)
 Definition SH (id cci : N) (reps : list replica) : shard :=
@@ -251,17 +259,46 @@ Definition tstep (st : fstate) (e : tev) : fstate + N :=
   | TSteady => chk (steady_restb st && healed P st) st 30
   end.
 
-Fixpoint run_from (st : fstate) (i : N) (tr : list tev) : tres :=
+(** the healthy rounds of the run are also checked as ONE macro step: the model state at the end of the
+    round = Fleet.healthy_round applied to the state at its beginning (with the persisted-log flags, the
+    number of ticks and the scheduler outcome observed in the round).  [racc] collects those. *)
+Record racc := mkRacc { ra_start : option fstate; ra_plogs : list (N * bool); ra_ticks : nat; ra_o : option outcome }.
+Fixpoint plog_fun (l : list (N * bool)) (a : N) : bool :=
+  match l with
+  | [] => false
+  | x :: l' => if x.1 =? a then x.2 else plog_fun l' a
+  end.
+Definition round_check (acc : racc) (st' : fstate) (e : tev) : racc + N :=
+  match e with
+  | THeal => inl (mkRacc (Some st') [] 0 None)
+  | TSnap h plog _ => inl (mkRacc (ra_start acc) ((h, plog) :: ra_plogs acc) (ra_ticks acc) (ra_o acc))
+  | TTick _ => inl (mkRacc (ra_start acc) (ra_plogs acc) (S (ra_ticks acc)) (ra_o acc))
+  | TSched o _ => inl (mkRacc (ra_start acc) (ra_plogs acc) (ra_ticks acc) (Some o))
+  | TRoundH =>
+    match ra_start acc, ra_o acc with
+    | Some s0, Some o =>
+      if bool_decide (healthy_round P (plog_fun (ra_plogs acc)) (ra_ticks acc) o s0 = Some st')
+      then inl (mkRacc (Some st') [] 0 None) else inr 31
+    | _, _ => inr 32
+    end
+  | _ => inl acc
+  end.
+
+Fixpoint run_from (st : fstate) (acc : racc) (i : N) (tr : list tev) : tres :=
   match tr with
   | [] => TraceOk i
   | e :: tr' =>
     match tstep st e with
-    | inl st' => run_from st' (i + 1) tr'
+    | inl st' =>
+      match round_check acc st' e with
+      | inl acc' => run_from st' acc' (i + 1) tr'
+      | inr code => TraceBad i code
+      end
     | inr code => TraceBad i code
     end
   end.
 
 (* [nhosts], [size] are informative (the regions list has one entry per host) *)
 Definition run_trace (nhosts : N) (regions : list N) (size : N) (tr : list tev) : tres :=
-  run_from (fleet_init regions) 0 tr.
+  run_from (fleet_init regions) (mkRacc None [] 0 None) 0 tr.
 End Run.
